@@ -279,7 +279,7 @@ theorem include_is_inlining_partial (cfg : Table) (hcfg : cfg = clientTable ∨ 
     (htext : args.flatMap (includeTargets env) = [text])
     (hinc : runHandler cfg env (parseText cfg env (f + 1)) st opt .includeFile args = .ok (r, rest))
     (hnoexp : ∀ s, runLines cfg env (parseText cfg env f) (prologue st) (fileLines text) = .ok s →
-      ∀ toks, expandOpts toks env.environ cfg.percentExpand s.opts = .ok s.opts) :
+      ∀ toks, expandOpts env.inherited toks env.environ cfg.percentExpand s.opts = .ok s.opts) :
     ∃ r', runLines cfg env (parseText cfg env (f + 1)) (prologue st) (fileLines text ++ [matchAllLine]) = .ok r' ∧
       r'.opts = r.opts ∧ r'.log = r.log ∧ r'.final = r.final ∧ r'.matching = r.matching := by
   have hm : ReadsMatchAll cfg := by
@@ -384,6 +384,237 @@ theorem include_glob_sorted_example :
     getOpt (load clientTable (wenv [("/m", "Include /d/.*\n"), ("/d/zz", "Port 1\n"), ("/d/.h", "Port 5\n")])
       5 [] [strBytes "/m"]) "Port" = some (.int 5) := by
   decide +kernel
+
+/-! ### config objects based on one another (options objects, the second pass, hidden directories) -/
+
+/-- **a hidden directory is not matched by a wildcard** (after the repair of `_include`): in every path the
+    test accepts, a component that starts with a dot stands under a pattern component that starts with one -/
+theorem hiddenOK_spec : ∀ (pcs comps : List Bytes), hiddenOK pcs comps = true →
+    ∀ (i : Nat) (p c : Bytes), pcs[i]? = some p → comps[i]? = some c → c.head? = some 46 → p.head? = some 46 := by
+  intro pcs
+  induction pcs with
+  | nil => intro comps _ i p c hp; simp at hp
+  | cons p0 ps ih =>
+    intro comps h i p c hp hcm hdot
+    cases comps with
+    | nil => simp at hcm
+    | cons c0 cs =>
+      simp only [hiddenOK, Bool.and_eq_true, Bool.or_eq_true, decide_eq_true_eq, bne_iff_ne, ne_eq] at h
+      cases i with
+      | zero =>
+        simp at hp hcm
+        subst hp; subst hcm
+        rcases h.1 with h1 | h1
+        · exact h1
+        · exact absurd hdot h1
+      | succ j =>
+        simp at hp hcm
+        exact ih cs h.2 j p c hp hcm hdot
+
+/-- `Include /d/*/x` with a hidden and a visible directory: the repaired rule reads the visible file only
+    (as glob(3) in OpenSSH), the rule before the repair (`includeTargetsPreFix`, which looked at the last
+    component only) read the file below `/d/.off` first; an explicit `.off` or `.*` component still matches -/
+theorem include_hidden_directory_witness :
+    includeTargetsPreFix (wenv [("/d/.off/x", "User hidden\n"), ("/d/site/x", "User site\n")]) (strBytes "/d/*/x")
+      = [strBytes "User hidden\n", strBytes "User site\n"] ∧
+    includeTargets (wenv [("/d/.off/x", "User hidden\n"), ("/d/site/x", "User site\n")]) (strBytes "/d/*/x")
+      = [strBytes "User site\n"] ∧
+    includeTargets (wenv [("/d/.off/x", "User hidden\n"), ("/d/site/x", "User site\n")]) (strBytes "/d/.*/x")
+      = [strBytes "User hidden\n"] ∧
+    getOpt (load clientTable (wenv [("/m", "Include /d/*/x\n"), ("/d/.off/x", "User hidden\n"),
+      ("/d/site/x", "User site\n")]) 5 [] [strBytes "/m"]) "User" = some (.str (strBytes "site")) := by
+  decide +kernel
+
+/-- a first-value option outside `_percent_expand` that the load starts with is still there afterwards -/
+def Keeps (o : Bytes) (v : Value) (st : St) : Prop := optGet st.opts o = some v
+
+theorem keeps_ok (cfg : Table) (hc : Consistent cfg) (env : Env) (lopt o : Bytes) (k : Kind)
+    (hh : cfg.handler lopt = some (o, k)) (hk : k.isScalar = true) (hpe : o ∉ cfg.percentExpand) (v : Value) :
+    InvOK cfg env (Keeps o v) where
+  matching := fun _ _ h => h
+  final := fun _ _ h => h
+  tokens := fun _ _ h => h
+  setOnce := by
+    intro st _ opt _ v' _ _ h
+    unfold Keeps at h ⊢
+    simp only [Config.setOnce]
+    by_cases ho : opt = o
+    · subst ho; rw [optGet_setOnceOpts_same, h]; rfl
+    · rw [optGet_setOnceOpts_other _ _ _ _ (Ne.symm ho)]; exact h
+  appendTo := by
+    intro st lopt' opt k' items hh' hk' h
+    unfold Keeps at h ⊢
+    simp only [Config.appendTo]
+    by_cases ho : opt = o
+    · subst ho
+      have := hc _ (handler_mem hh') _ (handler_mem hh) rfl
+      simp at this
+      rw [this, Kind.scalar_not_append k hk] at hk'
+      simp at hk'
+    · rw [optGet_appendOpts_other _ _ _ _ (Ne.symm ho)]; exact h
+  expandOpts := by
+    intro st toks o' h he
+    unfold Keeps at h ⊢
+    simp only
+    rw [expandOpts_get_other _ _ _ o _ _ _ hpe he]
+    exact h
+
+/-- **the second (canonical / final) pass keeps what the options object carries** (after the repair of
+    `_connect`): a first-value option outside `_percent_expand` that is among the options the connection
+    inherits holds the inherited value at the end of the connection flow, whatever the files say, whether
+    or not a second pass is made. -/
+theorem second_pass_keeps_inherited (cfg : Table) (hc : Consistent cfg) (env : Env) (fuel : Nat) (init : Opts)
+    (paths : List Bytes) (canon : Option Bytes) (st : St)
+    (h : resolveClient cfg env fuel init paths canon = .ok st)
+    (lopt o : Bytes) (k : Kind) (hh : cfg.handler lopt = some (o, k)) (hk : k.isScalar = true)
+    (hpe : o ∉ cfg.percentExpand) (v : Value) (hv : optGet init o = some v) :
+    optGet st.opts o = some v := by
+  unfold resolveClient at h
+  cases h1 : load cfg { env with canonical := false, final := false } fuel init paths with
+  | error e => simp [h1] at h
+  | ok st1 =>
+    simp only [h1] at h
+    split at h
+    · exact load_inv (keeps_ok cfg hc _ lopt o k hh hk hpe v) fuel init paths st hv h
+    · simp at h
+      rw [← h]
+      exact load_inv (keeps_ok cfg hc _ lopt o k hh hk hpe v) fuel init paths st1 hv h1
+
+/-- witness of the defect repaired in `_connect`: an options object that resolved `User alice` (from its own
+    base `[]`) and a per-connection file with a `Match final` block.  Before the repair the second pass
+    restarted from the base of the options object and the user was gone; now it is kept. -/
+theorem second_pass_dropped_options_prefix_witness :
+    getOpt (resolveClientPreFix clientTable (wenv [("/m", "Match final\n ServerAliveInterval 7\n")]) 5 []
+      [(strBytes "User", .str (strBytes "alice"))] [strBytes "/m"] none) "User" = none ∧
+    getOpt (resolveClient clientTable (wenv [("/m", "Match final\n ServerAliveInterval 7\n")]) 5
+      [(strBytes "User", .str (strBytes "alice"))] [strBytes "/m"] none) "User" = some (.str (strBytes "alice")) ∧
+    getOpt (resolveClient clientTable (wenv [("/m", "Match final\n ServerAliveInterval 7\n")]) 5
+      [(strBytes "User", .str (strBytes "alice"))] [strBytes "/m"] none) "ServerAliveInterval" = some (.int 7) := by
+  decide +kernel
+
+theorem expandOpts_keeps_inherited_str (inh : Opts) (toks : Tokens) (environ : List (Bytes × Bytes))
+    (o s : Bytes) (hin : (optGet inh o).isSome = true) :
+    ∀ (ks : List Bytes) (opts opts' : Opts), optGet opts o = some (.str s) →
+      expandOpts inh toks environ ks opts = .ok opts' → optGet opts' o = some (.str s) := by
+  intro ks
+  induction ks with
+  | nil => intro opts opts' ho h; simp [expandOpts] at h; rw [← h]; exact ho
+  | cons k ks ih =>
+    intro opts opts' ho h
+    unfold expandOpts at h
+    cases hg : optGet opts k with
+    | none => simp only [hg] at h; exact ih _ _ ho h
+    | some v =>
+      simp only [hg] at h
+      cases hv : expandValue (optGet inh k) toks environ v with
+      | error e => simp [hv] at h
+      | ok v' =>
+        simp only [hv] at h
+        refine ih _ _ ?_ h
+        by_cases hk : k = o
+        · subst hk
+          rw [ho] at hg
+          cases hg
+          simp [expandValue, hin] at hv
+          rw [← hv, optGet_optSet_same]
+        · rw [optGet_optSet_other _ _ _ _ (Ne.symm hk)]; exact ho
+
+theorem keeps_inherited_ok (cfg : Table) (hc : Consistent cfg) (env : Env) (lopt o : Bytes) (k : Kind)
+    (hh : cfg.handler lopt = some (o, k)) (hk : k.isScalar = true) (s : Bytes)
+    (hin : (optGet env.inherited o).isSome = true) :
+    InvOK cfg env (Keeps o (.str s)) where
+  matching := fun _ _ h => h
+  final := fun _ _ h => h
+  tokens := fun _ _ h => h
+  setOnce := by
+    intro st _ opt _ v' _ _ h
+    unfold Keeps at h ⊢
+    simp only [Config.setOnce]
+    by_cases ho : opt = o
+    · subst ho; rw [optGet_setOnceOpts_same, h]; rfl
+    · rw [optGet_setOnceOpts_other _ _ _ _ (Ne.symm ho)]; exact h
+  appendTo := by
+    intro st lopt' opt k' items hh' hk' h
+    unfold Keeps at h ⊢
+    simp only [Config.appendTo]
+    by_cases ho : opt = o
+    · subst ho
+      have := hc _ (handler_mem hh') _ (handler_mem hh) rfl
+      simp at this
+      rw [this, Kind.scalar_not_append k hk] at hk'
+      simp at hk'
+    · rw [optGet_appendOpts_other _ _ _ _ (Ne.symm ho)]; exact h
+  expandOpts := by
+    intro st toks o' h he
+    unfold Keeps at h ⊢
+    simp only
+    exact expandOpts_keeps_inherited_str _ _ _ o s hin _ _ _ h he
+
+/-- **an inherited value is not expanded a second time** (after the repair of the end of `parse()`): a string
+    option the load inherits from the previous config object (`env.inherited`, `_last_options`) - where it was
+    expanded when that object was loaded - is byte for byte the same after the load, also when the option is in
+    `_percent_expand` and the text contains `%` or `${`. -/
+theorem inherited_value_not_expanded_again (cfg : Table) (hc : Consistent cfg) (env : Env) (fuel : Nat)
+    (init : Opts) (paths : List Bytes) (st : St) (h : load cfg env fuel init paths = .ok st)
+    (lopt o : Bytes) (k : Kind) (hh : cfg.handler lopt = some (o, k)) (hk : k.isScalar = true)
+    (s : Bytes) (hv : optGet init o = some (.str s)) (hin : (optGet env.inherited o).isSome = true) :
+    optGet st.opts o = some (.str s) :=
+  load_inv (keeps_inherited_ok cfg hc env lopt o k hh hk s hin) fuel init paths st hv h
+
+def inhOpts : Opts :=
+  [(strBytes "RemoteCommand", .str (strBytes "echo 100%done %h")),
+   (strBytes "IdentityFile", .list [strBytes "/k/%d/id"])]
+
+/-- witness of the defect repaired at the end of `parse()`: the options object resolved
+    `RemoteCommand echo 100%%done %%h` to `echo 100%done %h` and `IdentityFile /k/%%d/id` to `/k/%d/id`.  A
+    connection based on it that reads any file expanded these again when the code did not know they were
+    inherited (`inherited := []`: `%d` became the home directory, `%h` the host); now they are kept and only
+    the item this connection adds (`/k/%h`) is expanded. -/
+theorem inherited_reexpansion_prefix_witness :
+    getOpt (load clientTable (wenv [("/m", "IdentityFile /k/%h\n")]) 5 inhOpts [strBytes "/m"]) "RemoteCommand"
+      = some (.str (strBytes "echo 100/home/lone h1")) ∧
+    getOpt (load clientTable (wenv [("/m", "IdentityFile /k/%h\n")]) 5 inhOpts [strBytes "/m"]) "IdentityFile"
+      = some (.list [strBytes "/k//home/l/id", strBytes "/k/h1"]) ∧
+    getOpt (load clientTable { wenv [("/m", "IdentityFile /k/%h\n")] with inherited := inhOpts } 5 inhOpts
+      [strBytes "/m"]) "RemoteCommand" = some (.str (strBytes "echo 100%done %h")) ∧
+    getOpt (load clientTable { wenv [("/m", "IdentityFile /k/%h\n")] with inherited := inhOpts } 5 inhOpts
+      [strBytes "/m"]) "IdentityFile" = some (.list [strBytes "/k/%d/id", strBytes "/k/h1"]) := by
+  decide +kernel
+
+def pairOpt (r : Except Err (St × St)) (second : Bool) (k : String) : Option Value :=
+  match r with
+  | .ok p => optGet (if second then p.2 else p.1).opts (strBytes k)
+  | .error _ => none
+
+/-- witness of the defect repaired in `SSHConfig.__init__` / `get_options` (lists shared between config
+    objects): an options object with `SendEnv COMMON`, a first connection whose file adds `SECRET_FOR_A`, a
+    second connection whose file does not mention SendEnv.  With the lists shared (`twoConnectionsPreFix`) the
+    second connection sends host A's variable; config objects that are values (`twoConnections`) do not. -/
+theorem shared_list_prefix_witness :
+    pairOpt (twoConnectionsPreFix clientTable (wenv [("/a", "SendEnv SECRET_FOR_A\n"), ("/b", "Port 3\n")]) 5
+      [(strBytes "SendEnv", .list [strBytes "COMMON"])] [strBytes "/a"] [strBytes "/b"]) true "SendEnv"
+      = some (.list [strBytes "COMMON", strBytes "SECRET_FOR_A"]) ∧
+    pairOpt (twoConnections clientTable (wenv [("/a", "SendEnv SECRET_FOR_A\n"), ("/b", "Port 3\n")]) 5
+      [(strBytes "SendEnv", .list [strBytes "COMMON"])] [strBytes "/a"] [strBytes "/b"]) true "SendEnv"
+      = some (.list [strBytes "COMMON"]) ∧
+    pairOpt (twoConnections clientTable (wenv [("/a", "SendEnv SECRET_FOR_A\n"), ("/b", "Port 3\n")]) 5
+      [(strBytes "SendEnv", .list [strBytes "COMMON"])] [strBytes "/a"] [strBytes "/b"]) false "SendEnv"
+      = some (.list [strBytes "COMMON", strBytes "SECRET_FOR_A"]) := by
+  decide +kernel
+
+/-- **connections made from one options object do not see one another**: the second connection's result is
+    the load of its own files from the options object's values, whatever the first connection read -/
+theorem connections_isolated (cfg : Table) (env : Env) (fuel : Nat) (parent : Opts) (paths1 paths2 : List Bytes)
+    (s1 s2 : St) (h : twoConnections cfg env fuel parent paths1 paths2 = .ok (s1, s2)) :
+    load cfg { env with inherited := parent } fuel parent paths2 = .ok s2 := by
+  unfold twoConnections at h
+  cases h1 : load cfg { env with inherited := parent } fuel parent paths1 with
+  | error e => simp [h1] at h
+  | ok a =>
+    simp only [h1] at h
+    cases h2 : load cfg { env with inherited := parent } fuel parent paths2 with
+    | error e => simp [h2] at h
+    | ok b => simp [h2] at h; rw [h.2]
 
 /-- the token table survives an include: `Hostname %p.x` is an error in a plain file but is accepted after
     any `Include` (this is why `include_is_inlining_partial` resets / ignores the token table) -/
